@@ -81,3 +81,38 @@ Example C19_gap_anchor_kept :
   let it := Pattern (x_of (mkRule Daily 1 [] [] [] [] [] (Some 1001800) 51400 3600 z_gap)) (m_none false) in
   roundtrip it = Some it.
 Proof. exact gap_anchor_kept. Qed.
+
+(* ---- tie C (third extension): the RRULE text and the constructor as the code has them.
+   rrule_kwargs_to_rrule_string / to_rrule_string are translated from their source text
+   (Gen/Source.v: g_rrule_text, g_to_rrule_string), strings being token lists;
+   Proofs/GenEq_rec.v, GenEq_rec_init.v. ---- *)
+From CG Require Import Model.RecSrc Model.Loop Gen.Source Proofs.GenEq_rec Proofs.GenEq_rec_init.
+
+(* the text the code builds from a rule's kwargs is the model's rrule_text (weekdays 0..6) *)
+Example C19_source_rrule_text_is_model : _ := g_rrule_text_eq.
+Print Assumptions C19_source_rrule_text_is_model.
+Example C19_source_rrule_text_is_model_kw : _ := g_rrule_text_eq_kw.
+Print Assumptions C19_source_rrule_text_is_model_kw.
+Example C19_source_to_rrule_string_is_model : _ := g_to_rrule_string_eq.
+Print Assumptions C19_source_to_rrule_string_is_model.
+
+(* (b) on the code's text: emitted for a rule of the property's list and parsed back, it gives
+   the rule *)
+Example C19_source_rrule_text_roundtrip : _ := src_rrule_text_roundtrip.
+Print Assumptions C19_source_rrule_text_roundtrip.
+
+(* outside the hypotheses, as the code has it: no freq / a weekday outside 0..6 raise ValueError;
+   a list argument given as an EMPTY list (month=[]) is written as "BYMONTH=" without a value,
+   which no reader accepts — an observation outside the model's rparts, where [] is the absent key *)
+Example C19_source_rrule_text_no_freq : _ := g_rrule_text_no_freq.
+Example C19_source_rrule_text_bad_weekday : _ := g_rrule_text_bad_weekday.
+Example C19_source_rrule_text_empty_list : _ := g_rrule_text_empty_list.
+Example C19_source_rrule_text_nonvacuous : _ := g_rrule_text_ex.
+
+(* the constructor the loaded patterns go through (rp_init / rp_init_dt of the round-trip
+   theorems above) is the constructor as the code has it *)
+Example C19_source_init_is_rp_init : _ := @src_init_is_rp_init.
+Print Assumptions C19_source_init_is_rp_init.
+Example C19_source_init_is_rp_init_dt : _ := @src_init_is_rp_init_dt.
+Print Assumptions C19_source_init_is_rp_init_dt.
+Example C19_source_init_then_text : _ := ex_init_text.
